@@ -13,7 +13,7 @@
 
    Every Python operation that can raise something other than a DataGenError is a *checked
    primitive* here (py_get, py_attr, py_split_include, py_startswith, py_hash, py_assert,
-   need_parent, as_dict, as_list): it returns Err (Internal "<Exception>:<file>:<function>")
+   need_parent, as_dict, and the type tests inside parse_fields / parse_friends / pot_val): it returns Err (Internal "<Exception>:<file>:<function>")
    where Python would raise.  The theorems of proofs/RejectP.v show which of them can fire.
 
    Dynamic half (exec_top): the exception wrappers of data_generator_runtime_object_model.py
@@ -186,9 +186,6 @@ Definition py_hash (site : string) (y : yaml) : result unit :=
 Definition as_dict (site : string) (y : yaml) : result kvs :=
   match y with YMap kv => Ok kv | _ => crash "AssertionError" site end.
 
-Definition as_list (site : string) (y : yaml) : result (list yaml) :=
-  match y with YSeq l => Ok l | _ => crash "TypeError" site end.
-
 (* ParseContext.line_num() / line_num(non-dict) falls back on current_parent_object and asserts it *)
 Definition need_parent (has_parent : bool) : result unit :=
   py_assert "parse_recipe_yaml.py:line_num" has_parent.
@@ -251,7 +248,7 @@ Definition object_spec := mkSpec "object" []
   [("fields", is_dict); ("friends", is_list); ("include", is_str); ("nickname", is_str);
    ("just_once", is_bool); ("for_each", is_dict); ("count", str_int_dict); ("update_key", is_str)].
 Definition var_spec := mkSpec "var" [("value", str_int_dict_list)] [].
-Definition for_each_spec := mkSpec "var" [("value", dict_str)] [].
+Definition for_each_spec := mkSpec "var" [("var", is_str); ("value", dict_str)] [].
 Definition macro_spec := mkSpec "macro" []
   [("fields", is_dict); ("friends", is_list); ("include", is_str)].
 Definition include_file_spec := mkSpec "include_file" [] [].
@@ -259,15 +256,14 @@ Definition include_file_spec := mkSpec "include_file" [] [].
 (* ------------------------------------------------------------------ random_reference bookkeeping *)
 (* what get_referent_name will find in a StructuredValue's first argument *)
 Inductive defkind := DKStr | DKOther | DKNoDef.   (* SimpleValue(str) | SimpleValue(other) | no .definition *)
-Inductive rrv := RRok | RRdge | RRkey | RRunbound | RRattr.   (* name | not a name | KeyError 'to' | UnboundLocalError | no .definition *)
+Inductive rrv := RRok | RRdge.   (* the target names a table | random_reference should only refer to a name *)
 Definition out := (defkind * list rrv)%type.
 
-Definition rr_site := "data_generator_runtime.py:get_referent_name".
 Definition rr_of_kind (k : defkind) : rrv :=
   match k with
   | DKStr => RRok
   | DKOther => RRdge
-  | DKNoDef => RRattr
+  | DKNoDef => RRdge              (* getattr(target, "definition", None) is None *)
   end.
 
 Inductive sargs := SAList (l : list defkind) | SAKw (l : list (string * defkind)).
@@ -285,11 +281,11 @@ Fixpoint last_assoc {A} (k : string) (l : list (string * A)) : option A :=
 
 Definition rr_verdict (a : sargs) : rrv :=
   match a with
-  | SAList [] | SAKw [] => RRunbound
+  | SAList [] | SAKw [] => RRdge  (* no target at all *)
   | SAList (k :: _) => rr_of_kind k
   | SAKw l => match last_assoc "to" l with
               | Some k => rr_of_kind k
-              | None => RRkey
+              | None => RRdge     (* kwargs.get("to") is None *)
               end
   end.
 
@@ -325,15 +321,12 @@ Definition each_kv (check_name : string -> result unit) (f : yaml -> result out)
 
 Definition no_check (_ : string) : result unit := Ok tt.
 
-(* parse_field: assert name, name *)
+(* parse_field: if not name: raise DataGenSyntaxError("Field names should not be empty") *)
 Definition field_name_check (name : string) : result unit :=
-  py_assert "parse_recipe_yaml.py:parse_field" (nonempty name).
-
-(* all(isinstance(key, str)) — `key.startswith("_")` of parse_statement_list's error path *)
-Definition all_keys_str (kv : kvs) : bool := forallb (fun p => is_str (fst p)) kv.
+  if nonempty name then Ok tt else dge.
 
 Section Walk.
-  (* include_macro name () as seen from a template *)
+  (* include_macro name context.macro_stack as seen from a template *)
   Variable inc : string -> result (list rrv).
 
   Fixpoint each_inc (names : list string) : result (list rrv) :=
@@ -495,8 +488,7 @@ Section Walk.
       | YMap kv =>
         if truthy_opt (lookup "object" kv) then do r <- pot walk top kv; Ok (DKNoDef, r)
         else if truthy_opt (lookup "var" kv) then do r <- pvd walk kv; Ok (DKNoDef, r)
-        else if all_keys_str kv then dge
-        else crash "AttributeError" "parse_recipe_yaml.py:parse_statement_list"
+        else dge                                             (* This statement cannot be parsed *)
       | _ => do _ <- need_parent (negb top); dge
       end
     end.
@@ -531,15 +523,16 @@ Fixpoint include_macro (M : menv) (n : nat) (parents : list string) (name : stri
         do incs <- py_split_include "parse_recipe_yaml.py:parse_inclusions" (lookup "include" body);
         do r1 <- each_inc (include_macro M n' (parents ++ [name])) incs;
         do fields <- py_attr site body "fields" true;
-        do r2 <- parse_fields (walk (include_macro M n' [])) fields;
+        (* context.macro_stack = parent_macros + (name,) while the body is parsed *)
+        do r2 <- parse_fields (walk (include_macro M n' (parents ++ [name]))) fields;
         do friends <- py_attr site body "friends" true;
-        do r3 <- parse_friends (walk (include_macro M n' [])) friends;
+        do r3 <- parse_friends (walk (include_macro M n' (parents ++ [name]))) friends;
         Ok (r1 ++ r2 ++ r3)
     end
   end.
 
 (* ------------------------------------------------------------------ files, plugins, top level *)
-Inductive loaderr := LMarked | LUnmarked | LExc (site : string).
+Inductive loaderr := LMarked | LUnmarked | LValueError | LExc (site : string).
 Inductive fentry := FMissing | FDir | FBad (how : loaderr) | FDoc (key : string) (doc : yaml).
 Inductive pres := PMissing | PNotPlugin | PFaker | PPlugin | PParser | PCrash (site : string).
 
@@ -558,8 +551,9 @@ Fixpoint find_file (k : string * string) (l : list ((string * string) * fentry))
 Definition load_failure {A} (how : loaderr) : result A :=
   match how with
   | LMarked => dge                                      (* DataGenYamlSyntaxError(str(y), path, y.problem_mark.line + 1) *)
-  | LUnmarked => crash "AttributeError" "parse_recipe_yaml.py:parse_file"   (* y.problem_mark does not exist *)
-  | LExc site => Err (Internal site)                    (* not a YAMLError: not caught *)
+  | LUnmarked => dge                                    (* getattr(y, "problem_mark", None): no line number *)
+  | LValueError => dge                                  (* except ValueError: PyYAML's constructors (2020-13-45) *)
+  | LExc site => Err (Internal site)                    (* neither YAMLError nor ValueError: not caught *)
   end.
 
 Record ctx := mkCtx {
@@ -596,20 +590,43 @@ Fixpoint categorize (data : list yaml) : result (list (string * yaml)) :=
 Definition of_category (c : string) (l : list (string * yaml)) : list yaml :=
   map snd (filter (fun p => String.eqb (fst p) c) l).
 
+(* str.isidentifier() on ASCII text *)
+Definition is_alpha_ (c : ascii) : bool :=
+  let n := N_of_ascii c in
+  (N.leb 65 n && N.leb n 90) || (N.leb 97 n && N.leb n 122) || N.eqb n 95.
+Definition is_alnum_ (c : ascii) : bool :=
+  let n := N_of_ascii c in is_alpha_ c || (N.leb 48 n && N.leb n 57).
+Fixpoint all_chars (p : ascii -> bool) (s : string) : bool :=
+  match s with EmptyString => true | String c r => p c && all_chars p r end.
+Definition is_identifier (s : string) : bool :=
+  match s with String c r => is_alpha_ c && all_chars is_alnum_ r | EmptyString => false end.
+
+(* plugin.split(".") ; cur is the current piece, reversed *)
+Fixpoint split_dot_aux (s cur : string) : list string :=
+  match s with
+  | EmptyString => [srev cur]
+  | String c r =>
+    if Ascii.eqb c "."%char then srev cur :: split_dot_aux r EmptyString
+    else split_dot_aux r (String c cur)
+  end.
+(* all(part.isidentifier() for part in plugin.split(".")) and "." in plugin *)
+Definition valid_plugin_name (s : string) : bool :=
+  has_char "."%char s && forallb is_identifier (split_dot_aux s EmptyString).
+
 (* resolve_plugin *)
 Definition resolve_plugin (E : env) (spec : yaml) : result bool (* is a ParserMacroPlugin *) :=
   match spec with
   | YStr s =>
-    if has_char "."%char s then
+    if valid_plugin_name s then
       match assoc s (penv E) with
       | Some PMissing => dge                            (* DataGenImportError *)
       | Some PNotPlugin => dge                          (* DataGenTypeError *)
       | Some PFaker | Some PPlugin => Ok false
       | Some PParser => Ok true
-      | Some (PCrash site) => Err (Internal site)       (* importlib / issubclass raised *)
+      | Some (PCrash site) => Err (Internal site)       (* importing the module itself raised *)
       | None => Err BadOracle
       end
-    else crash "ValueError" "plugins.py:resolve_plugin_alternatives"   (* prefix, class_name = plugin.rsplit(".", 1) *)
+    else dge                                            (* Plugin name should look like package.module.ClassName *)
   | _ => dge                                            (* Plugin name should be a string *)
   end.
 
@@ -628,11 +645,7 @@ Definition parse_version (vals : list yaml) : result (option yaml) :=
   match vals with
   | [] => Ok None
   | v0 :: rest =>
-    if is_nan v0 then                                   (* nan != nan: the declaration mismatches itself *)
-      match rest with
-      | [] => crash "IndexError" "parse_recipe_yaml.py:parse_version"   (* version_declarations[1] *)
-      | _ => dge
-      end
+    if is_nan v0 then dge                               (* nan != nan: the declaration mismatches itself *)
     else match ver23 v0 with
          | None => dge                                  (* conflicting, or not 2 / 3 *)
          | Some z => if forallb (ver_eq z) rest then Ok (Some v0) else dge
@@ -648,8 +661,8 @@ Fixpoint mapM {A B} (f : A -> result B) (l : list A) : result (list B) :=
 Definition inclusion_site := "parse_recipe_yaml.py:relpath_from_inclusion_element".
 
 (* parse_included_file for one `include_file` element of the file `key`; `load` parses the included file *)
-Definition include_one (E : env) (load : string -> yaml -> ctx -> result ctx) (key : string)
-           (y : yaml) (c : ctx) : result ctx :=
+Definition include_one (E : env) (load : string -> yaml -> ctx -> result ctx) (stack : list string)
+           (key : string) (y : yaml) (c : ctx) : result ctx :=
   do kv <- as_dict "parse_recipe_yaml.py:parse_element" y;
   do _ <- parse_element include_file_spec kv;
   do rel <- py_attr inclusion_site kv "include_file" false;
@@ -659,30 +672,39 @@ Definition include_one (E : env) (load : string -> yaml -> ctx -> result ctx) (k
   | YStr relpath =>
     match find_file (key, relpath) (fenv E) with
     | Some FMissing => dge                              (* Cannot load include file *)
-    | Some FDir => crash "IsADirectoryError" "parse_recipe_yaml.py:parse_included_file"
+    | Some FDir => dge                                  (* not inclusion_path.is_file() *)
     | Some (FBad how) => load_failure how
-    | Some (FDoc k d) => load k d c
+    | Some (FDoc k d) =>
+      if String.eqb k key || mem k stack then dge       (* Include file .. includes itself *)
+      else load k d c
     | None => Err BadOracle
     end
   | _ => crash "TypeError" "parse_recipe_yaml.py:parse_included_file"
   end.
 
 (* parse_included_files: the elements with a truthy include_file, in order *)
-Definition include_all (E : env) (load : string -> yaml -> ctx -> result ctx) (key : string)
-  : list (yaml * bool) -> ctx -> result ctx :=
+Definition include_all (E : env) (load : string -> yaml -> ctx -> result ctx) (stack : list string)
+           (key : string) : list (yaml * bool) -> ctx -> result ctx :=
   fix go l c :=
   match l with
   | [] => Ok c
   | (y, false) :: r => go r c
-  | (y, true) :: r => do c' <- include_one E load key y c; go r c'
+  | (y, true) :: r => do c' <- include_one E load stack key y c; go r c'
   end.
+
+(* check_name_is_hashable: `option` / `macro` should be a name *)
+Definition check_name (k : yaml) : result unit := if hashable k then Ok tt else dge.
 
 (* the rest of parse_top_level_elements, after the included files *)
 Definition top_level_rest (E : env) (cats : list (string * yaml)) (c1 : ctx) : result ctx :=
   let site := "parse_recipe_yaml.py:parse_top_level_elements" in
-  do okvs <- mapM (as_dict site) (of_category "option" cats);
+  (* check_name_is_hashable for the options, then for the macros *)
+  do okvs <- mapM (fun y => do k <- py_getitem site y "option";
+                            do _ <- check_name k;
+                            as_dict site y) (of_category "option" cats);
   (* context.macros.update({obj["macro"]: obj for obj in ...}) *)
   do ms <- mapM (fun y => do k <- py_getitem site y "macro";
+                          do _ <- check_name k;
                           do _ <- py_hash site k;
                           do kv <- as_dict site y;
                           Ok (k, kv)) (of_category "macro" cats);
@@ -698,7 +720,8 @@ Definition top_level_rest (E : env) (cats : list (string * yaml)) (c1 : ctx) : r
             ver).
 
 (* parse_file (after a successful load) + parse_top_level_elements; fuel = depth of file inclusion *)
-Fixpoint load_file (E : env) (n : nat) (key : string) (doc : yaml) (c : ctx) : result ctx :=
+Fixpoint load_file (E : env) (n : nat) (stack : list string) (key : string) (doc : yaml) (c : ctx)
+  : result ctx :=
   match n with
   | O => Err OutOfFuel
   | S n' =>
@@ -708,7 +731,8 @@ Fixpoint load_file (E : env) (n : nat) (key : string) (doc : yaml) (c : ctx) : r
       (* parse_included_files: [obj for obj in data if obj.get("include_file")] *)
       do incl <- mapM (fun y => do v <- py_get "parse_recipe_yaml.py:parse_included_files" y "include_file";
                                 Ok (y, truthy_opt v)) data;
-      do c1 <- include_all E (load_file E n') key incl c;
+      (* context.inclusion_stack: the files above this one *)
+      do c1 <- include_all E (load_file E n' (key :: stack)) stack key incl c;
       top_level_rest E cats c1
     | _ => dge                                          (* Recipe file should be a list *)
     end
@@ -734,12 +758,11 @@ Fixpoint merge_options (opts : list kvs) (ver : option yaml) : result (option ya
     end
   end.
 
-(* Interpreter.__init__: assert snowfakery_version in (2, 3) *)
+(* Interpreter.__init__: if snowfakery_version not in (2, 3): raise DataGenValueError *)
 Definition version_assert (ver : option yaml) : result unit :=
   match ver with
   | None => Ok tt
-  | Some v => py_assert "data_generator_runtime.py:__init__"
-                        (match ver23 v with Some _ => true | None => false end)
+  | Some v => match ver23 v with Some _ => Ok tt | None => dge end
   end.
 
 (* find_tables_to_keep_history_for: get_referent_name for every random_reference, in parse order *)
@@ -748,9 +771,6 @@ Fixpoint rr_scan (l : list rrv) : result unit :=
   | [] => Ok tt
   | RRok :: r => rr_scan r
   | RRdge :: _ => dge
-  | RRkey :: _ => crash "KeyError" rr_site            (* kwargs["to"] *)
-  | RRunbound :: _ => crash "UnboundLocalError" rr_site  (* neither args nor kwargs: `ret` is never assigned *)
-  | RRattr :: _ => crash "AttributeError" rr_site     (* args[0].definition on a StructuredValue / ObjectTemplate *)
   end.
 
 Fixpoint top_statements (inc : string -> result (list rrv)) (l : list yaml) : result (list rrv) :=
@@ -761,31 +781,19 @@ Fixpoint top_statements (inc : string -> result (list rrv)) (l : list yaml) : re
 
 (* parse_recipe + generate() up to interpreter.execute() *)
 Definition validate (E : env) (ffuel mfuel : nat) (doc : yaml) : result unit :=
-  do c <- load_file E ffuel "" doc ctx0;
+  do c <- load_file E ffuel [] "" doc ctx0;
   if c_parser c then Err Unsupported else
   do rr <- top_statements (include_macro (c_macros c) mfuel []) (c_stmts c);
   do ver <- merge_options (c_opts c) (c_version c);
   do _ <- version_assert ver;
   rr_scan rr.
 
-(* the crash sites validate can reach on some document (each one demonstrated on /repo, see
-   KNOWN_FINDINGS.json); everything else that is Internal comes from the environment *)
-Definition known_crash_sites : list string :=
-  ["AttributeError:parse_recipe_yaml.py:parse_file";
-   "IsADirectoryError:parse_recipe_yaml.py:parse_included_file";
-   "TypeError:parse_recipe_yaml.py:parse_top_level_elements";
-   "ValueError:plugins.py:resolve_plugin_alternatives";
-   "IndexError:parse_recipe_yaml.py:parse_version";
-   "AssertionError:parse_recipe_yaml.py:parse_field";
-   "AttributeError:parse_recipe_yaml.py:parse_statement_list";
-   "AttributeError:parse_recipe_yaml.py:parse_for_each_variable_definition";
-   "TypeError:data_generator.py:merge_options";
-   "AssertionError:data_generator_runtime.py:__init__";
-   "KeyError:data_generator_runtime.py:get_referent_name";
-   "UnboundLocalError:data_generator_runtime.py:get_referent_name";
-   "AttributeError:data_generator_runtime.py:get_referent_name"].
+(* No crash site of Snowfakery's own is left: every checked primitive above is unreachable (proofs/RejectP.v).
+   What remains Internal comes from the environment. *)
+Definition known_crash_sites : list string := [].
 
-(* crashes the environment hands in: importlib / issubclass on a plugin name, PyYAML on an included file *)
+(* crashes the environment hands in: a plugin module that raises while it is imported, PyYAML raising
+   something that is neither a YAMLError nor a ValueError on an included file *)
 Fixpoint env_crashes_files (l : list ((string * string) * fentry)) : list string :=
   match l with
   | [] => []
@@ -841,41 +849,43 @@ Inductive frame :=
 | FDefEH                   (* FieldDefinition.exception_handling: Exception -> fix_exception(..) *)
 | FFieldFactory            (* FieldFactory.generate_value: Exception -> fix_exception(..) *)
 | FTemplateEH              (* ObjectTemplate.exception_handling: DataGenError re-raised, Exception -> DataGenError *)
-| FCountConv (has_definition : bool)
-                           (* _evaluate_count: except (ValueError, TypeError): DataGenValueError(f"..{self.count_expr.definition}..") *)
+| FVarEH                   (* VariableDefinition.execute: DataGenError re-raised, Exception -> fix_exception(..) *)
+| FCountConv               (* _evaluate_count: except (ValueError, TypeError, OverflowError): DataGenValueError *)
 | FGenerate.               (* generate: except DataGenError: add the file name, re-raise; nothing else is caught *)
 
-Definition is_value_or_type_error (e : exn) : bool :=
+Definition is_count_conversion_error (e : exn) : bool :=
   match e with
-  | EPy n => String.eqb n "ValueError" || String.eqb n "TypeError"
+  | EPy n => String.eqb n "ValueError" || String.eqb n "TypeError" || String.eqb n "OverflowError"
   | EDGE => false
   end.
 
 (* fix_exception returns a DataGenError for every input *)
 Definition through (f : frame) (e : exn) : exn :=
   match f with
-  | FSimpleRender | FDefEH | FFieldFactory | FTemplateEH => EDGE
-  | FCountConv has_def =>
-    if is_value_or_type_error e then (if has_def then EDGE else EPy "AttributeError") else e
+  | FSimpleRender | FDefEH | FFieldFactory | FTemplateEH | FVarEH => EDGE
+  | FCountConv => if is_count_conversion_error e then EDGE else e
   | FGenerate => e
   end.
 
 Definition converts (f : frame) : bool :=
-  match f with FSimpleRender | FDefEH | FFieldFactory | FTemplateEH => true | _ => false end.
+  match f with FSimpleRender | FDefEH | FFieldFactory | FTemplateEH | FVarEH => true | _ => false end.
 
 (* the way from generate() down to a leaf, outermost step first *)
 Inductive step :=
-| SVarExpr                 (* VariableDefinition.execute -> evaluate -> expression.render: no handler *)
-| SNested                  (* a template used as a definition (ObjectTemplate.render -> generate_rows): no handler *)
-| STmplForEach             (* _evaluate_for_each: exception_handling("Cannot evaluate `for_each` definition") *)
-| STmplCount (has_definition : bool)   (* _evaluate_count, count_expr is a SimpleValue or not *)
-| STmplField               (* rows loop: exception_handling("Cannot generate"), _generate_fields:
+| SVarExpr                 (* VariableDefinition.execute: try .. evaluate -> expression.render *)
+| SNested                  (* a template used as a definition (ObjectTemplate.render -> generate_rows): no handler of
+                              its own on the way in; what happens inside is one of the STmpl steps *)
+| STmplForEach             (* generate_rows' outer exception_handling("Cannot generate"), then _evaluate_for_each:
+                              exception_handling("Cannot evaluate `for_each` definition") *)
+| STmplCount               (* generate_rows' outer exception_handling, then _evaluate_count *)
+| STmplField               (* outer handler, rows loop: exception_handling("Cannot generate"), _generate_fields:
                               exception_handling("Problem rendering value"), FieldFactory.generate_value *)
-| STmplFriend              (* rows loop: exception_handling("Cannot generate") -> loop_over_templates_once(friends) *)
+| STmplFriend              (* outer handler, rows loop handler -> loop_over_templates_once(friends) *)
 | SCallArg.                (* StructuredValue.render: exception_handling("Cannot evaluate function") -> evaluate_function -> arg.render *)
 
 Inductive leaf :=
-| LCtx                     (* parent_context.child_context(..): RuntimeContext.__init__ (e.g. the Faker locale) *)
+| LCtxTmpl                 (* generate_rows: parent_context.child_context(..) (e.g. the Faker locale), inside the outer handler *)
+| LCtxVar                  (* VariableDefinition.execute: child_context(..), inside its try *)
 | LCompile                 (* SimpleValue.evaluator: context.get_evaluator inside exception_handling("Cannot parse value") *)
 | LEval                    (* SimpleValue.render: evaluator(context) / val.render() inside try *)
 | LPost                    (* SimpleValue.render: look_for_number(val), after the try *)
@@ -889,21 +899,25 @@ Inductive leaf :=
 (* frames of a step / a leaf, innermost first *)
 Definition step_frames (s : step) : list frame :=
   match s with
-  | SVarExpr | SNested => []
-  | STmplForEach => [FTemplateEH]
-  | STmplCount hd => [FCountConv hd]
-  | STmplField => [FFieldFactory; FTemplateEH; FTemplateEH]
-  | STmplFriend => [FTemplateEH]
+  | SNested => []
+  | SVarExpr => [FVarEH]
+  | STmplForEach => [FTemplateEH; FTemplateEH]
+  | STmplCount => [FCountConv; FTemplateEH]
+  | STmplField => [FFieldFactory; FTemplateEH; FTemplateEH; FTemplateEH]
+  | STmplFriend => [FTemplateEH; FTemplateEH]
   | SCallArg => [FDefEH]
   end.
 
 Definition leaf_frames (l : leaf) : list frame :=
   match l with
-  | LCtx | LPost | LLookup | LCountConv => []
+  | LPost | LLookup | LCountConv => []
+  | LCtxTmpl => [FTemplateEH]
+  | LCtxVar => [FVarEH]
   | LCompile | LFunc => [FDefEH]
   | LEval => [FSimpleRender]
-  | LForEachType | LRowSetup => [FTemplateEH]
-  | LWrite => [FTemplateEH; FTemplateEH]
+  | LForEachType => [FTemplateEH; FTemplateEH]
+  | LRowSetup => [FTemplateEH; FTemplateEH]
+  | LWrite => [FTemplateEH; FTemplateEH; FTemplateEH]
   end.
 
 (* all frames from the leaf outwards *)
@@ -917,6 +931,16 @@ Definition escape (path : list step) (l : leaf) (e : exn) : exn :=
   fold_left (fun e f => through f e) (frames path l) e.
 
 Definition protected_path (path : list step) (l : leaf) : bool := existsb converts (frames path l).
+
+(* Paths that can occur: execution enters through a top-level statement, i.e. the first step is a `var`
+   or one of the template steps; with no step at all the leaf is one a statement reaches directly.
+   (look_for_number, name resolution and the count conversion only happen below a step.) *)
+Definition rooted (path : list step) (l : leaf) : bool :=
+  match path with
+  | [] => match l with LPost | LLookup | LCountConv => false | _ => true end
+  | SNested :: _ | SCallArg :: _ => false
+  | _ => true
+  end.
 
 (* generate(): nothing is executed unless validate succeeds; what the execution then does is an oracle
    (rows written, and possibly an exception raised at some leaf) *)
